@@ -46,7 +46,8 @@ PROG = {
 }
 TAGS = [None, 'a', 'b']
 # the pickle persister's directory is the caller's choice: names with glob/regex metacharacters are directories too
-DIRNAMES = ['store', 'run[1]', 'a*b?', '[ab]', 'x.pickle']
+# (... and a directory that does not exist yet - with or without its parents - is created by the persister)
+DIRNAMES = ['store', 'run[1]', 'a*b?', '[ab]', 'x.pickle', 'auto:fresh', 'auto:fresh/two/levels']
 TAG_SETS = {'str': [None, 'a', 'b'], 'int': [None, 0, 1], 'strempty': [None, '', 'b'], 'strodd': [None, 'step 1', 'step_1']}
 PID_SETS = {
     'int': [11, 22, 33, 44],
@@ -56,6 +57,9 @@ PID_SETS = {
     'strodd': ['job 1', 'job_1', 'job#1', 'job:1'],
     # integers whose decimal forms are prefixes of one another
     'intprefix': [1, 12, 100, 2],
+    # identifiers that are falsy: they are identifiers all the same
+    'intzero': [0, 1, 10, 2],
+    'strempty': ['', 'a', 'ab', 'b'],
 }
 
 
@@ -118,7 +122,7 @@ def _cases(draw, tier):
             ops.append([kind, p])
         else:
             ops.append([kind])
-    case = {'pid_kind': draw(st.sampled_from(['int', 'int', 'str', 'uuid', 'strodd', 'intprefix'])), 'tag_kind': tag_kind, 'ops': ops}
+    case = {'pid_kind': draw(st.sampled_from(['int', 'int', 'str', 'uuid', 'strodd', 'intprefix', 'intzero', 'strempty'])), 'tag_kind': tag_kind, 'ops': ops}
     if draw(st.integers(0, 2)) == 0:
         case['dirname'] = draw(st.sampled_from(DIRNAMES))
     case['two_handles'] = draw(st.booleans())
@@ -212,19 +216,27 @@ def execute(case):
     tmpdir = tempfile.mkdtemp(prefix='pv14-')
     pickle_dir = tmpdir
     if case.get('dirname'):
-        pickle_dir = os.path.join(tmpdir, case['dirname'])
-        os.mkdir(pickle_dir)
+        pickle_dir = os.path.join(tmpdir, case['dirname'].replace('auto:', ''))
+        if not case['dirname'].startswith('auto:'):
+            os.mkdir(pickle_dir)
         # a decoy next to it that a pattern interpretation of the name would match instead
         for decoy in ('run1', 'ab', 'a', 'b', 'axb?'):
             os.makedirs(os.path.join(tmpdir, decoy), exist_ok=True)
     system = Sys(pids)
+    for want, proc in zip(pids, system.procs):
+        if proc.pid != want or type(proc.pid) is not type(want):
+            v('pid-not-kept', f'a process constructed with pid={want!r} reports pid {proc.pid!r}: its checkpoints cannot be found under the key it was given')
     poisoned = set()
     classes = set()
     model = {}
     touched_since_save = set()
     hist = []
     try:
-        persisters = {'memory': persistence.InMemoryPersister(), 'pickle': persistence.PicklePersister(pickle_dir)}
+        try:
+            persisters = {'memory': persistence.InMemoryPersister(), 'pickle': persistence.PicklePersister(pickle_dir)}
+        except Exception as exc:  # noqa: BLE001
+            v('store-not-created', f'PicklePersister({case.get("dirname")!r}) raised {type(exc).__name__}: {exc}')
+            return {'violations': viol, 'nontrivial': True, 'classes': ['store-not-created'], 'history': {'pid_kind': case['pid_kind'], 'ops': []}}
         # a second handle on the same pickle directory: the directory is the store, not the object
         second = persistence.PicklePersister(pickle_dir) if case.get('two_handles') else None
         for opno, op in enumerate(case['ops']):
